@@ -16,6 +16,10 @@ type vfMon struct {
 	nextID              uint64
 	hash, conf          [4]uint64
 	zeroExits           int
+	inClear             bool
+	clearedAt           int
+	servedReleased      bool
+	cache               *Cache[uint64, vfVal]
 }
 
 type vfCfg struct {
@@ -55,6 +59,13 @@ func vfNewCache(cfg vfCfg) (*Cache[uint64, vfVal], *vfMon) {
 				}
 				mon.exit[v.id]++
 				mon.order = append(mon.order, int(v.id))
+				// a value must not be handed to OnExit while it can still be retrieved (Clear
+				// notifies under the shard's write lock before dropping the map: not observable)
+				if !mon.inClear && mon.cache != nil {
+					if it, ok := vfStoreHas(mon.cache, v.key); ok && it.value.id == v.id {
+						mon.servedReleased = true
+					}
+				}
 			})
 		}
 		c.OnEvict = func(it *Item[vfVal]) {
@@ -78,6 +89,7 @@ func vfNewCache(cfg vfCfg) (*Cache[uint64, vfVal], *vfMon) {
 	if err != nil {
 		panic(err)
 	}
+	mon.cache = cache
 	return cache, mon
 }
 
